@@ -13,4 +13,11 @@ def jobs(tier, seed):
                     "maxtv NULL or any non-negative value")]
     J += mjobs.timeouts_jobs(tier)
     J += mjobs.wake_jobs(tier)
+    J += mjobs.flush_jobs(tier)
+    J.append(dict(name="evloop_step", harness="evloop_step.c", real=["src/lib/ares_library_init.c", "src/lib/dsa/ares_llist.c"],
+                  support=["vp_rt.c", "valloc.c", "memloops.c", "asvp_ref.c"], unwind=4, backend="cadical", mem_gb=6,
+                  replace=["ares_event_thread_cleanup"], replace_with=["evloop_cleanup_stub.c"],
+                  witnesses=["end", "deadline already passed", "nothing pending"],
+                  bound="ONE iteration of the ares_event_thread loop: hint absent or any value 0..4e6 s with microseconds "
+                        "(the already-passed deadline {0,0} included), pending-write flag symbolic"))
     return J
